@@ -305,6 +305,9 @@ func (p *Parser) parsePosting() *ast.Posting {
 	return posting
 }
 
+// maxAmountExponent bounds the decimal exponent of an amount (hledger itself keeps at most 255 decimal places).
+const maxAmountExponent = 1000
+
 func (p *Parser) parseAmount() *ast.Amount {
 	amount := &ast.Amount{}
 	amount.Range.Start = toASTPosition(p.current.Pos)
@@ -354,6 +357,12 @@ func (p *Parser) parseAmount() *ast.Amount {
 	numberStr = normalizeNumber(numberStr)
 
 	qty, err := decimal.NewFromString(numberStr)
+	if err == nil {
+		// An exponent far outside anything an amount can mean makes exact decimal arithmetic arbitrarily slow.
+		if expo := qty.Exponent(); expo > maxAmountExponent || expo < -maxAmountExponent {
+			err = fmt.Errorf("exponent out of range")
+		}
+	}
 	if err != nil {
 		p.error("invalid number: %s", p.current.Value)
 		return nil
